@@ -216,6 +216,17 @@ func (w *ctrlWorld) inject(kind string) {
 		sw.Inject(watch.Event{Type: watch.Added, Object: &runtime.Unknown{}})
 	case "close":
 		sw.CloseStream()
+	case "replay-delete":
+		// the server repeats an old DELETED frame for an object that exists (again): the cache drops it
+		// (deletes are applied whatever their version), and only the next list can bring it back
+		objs, _ := w.srv.State()
+		if len(objs) == 0 {
+			return
+		}
+		o := kv.Pick(w.r, objs)
+		sw.Inject(watch.Event{Type: watch.Deleted, Object: o.Build().(runtime.Object)})
+		w.tr.line(kv.L("inject", kind, o.Sx()))
+		return
 	}
 	w.tr.line(kv.L("inject", kind))
 }
@@ -243,7 +254,12 @@ func runCtrlScenario(t *testing.T, tr *tracer, idx int, seed uint64, mode string
 			w.period = kv.Pick(r, []time.Duration{10 * time.Second, time.Minute})
 		}
 		w.srv.RVStep = 1 + r.Intn(3)
-		if r.Chance(1, 4) && !w.slowSync {
+		emptyRV := mode == "" && !w.slowSync && w.listFaultAt == 0 && r.Chance(1, 10)
+		if emptyRV {
+			// a server whose lists carry no resource version of their own
+			w.srv.EmptyListRV = true
+		}
+		if r.Chance(1, 4) && !w.slowSync && !emptyRV {
 			w.srv.ListLatency = kv.Pick(r, []time.Duration{100 * time.Millisecond, w.period / 4})
 			if w.srv.ListLatency > time.Hour {
 				w.srv.ListLatency = time.Second
@@ -275,6 +291,10 @@ func runCtrlScenario(t *testing.T, tr *tracer, idx int, seed uint64, mode string
 			rootF = kv.Pick(r, treeFilters())
 		}
 		tr.line(kv.L("scenario", fmt.Sprint(idx), kv.Atom(mode)))
+		if emptyRV {
+			tr.line(kv.L("emptyrv"))
+			w.srvEvent()
+		}
 		for i := r.Intn(4); i > 0; i-- {
 			w.srvEvent()
 		}
@@ -331,8 +351,10 @@ func runCtrlScenario(t *testing.T, tr *tracer, idx int, seed uint64, mode string
 				w.step("status", func() { w.inject("status") })
 			case x < 58:
 				w.step("bookmark", func() { w.inject("bookmark") })
-			case x < 61:
+			case x < 60:
 				w.step("nonobject", func() { w.inject("nonobject") })
+			case x < 61 && mode != "c04" && w.period < 1000*time.Hour:
+				w.step("replay-delete", func() { w.inject("replay-delete") })
 			case x < 72:
 				// the reconnect delay, generously
 				w.step("advance-retry", func() { w.advance(kcache.VerifWatchRetryDelay + kcache.VerifWatchRetryDelay/2) })
@@ -383,12 +405,19 @@ func runCtrlScenario(t *testing.T, tr *tracer, idx int, seed uint64, mode string
 		// quiesce the server, give the watch its reconnect delay (twice: connect errors), then — when the
 		// refresh period is short enough — one further relist
 		w.step("settle", func() {
-			tr.line(kv.L("settle"))
+			// "blocked": a Watch call that never returns is in flight — the watch cannot reconnect, only a relist helps
+			tr.line(kv.L("settle", kv.Bool(w.srv.Blocked.Load() > 0)))
 			w.watchErrs, w.watchBlock = 0, false
 			w.advance(3 * kcache.VerifWatchRetryDelay)
 		})
 		if w.period < 1000*time.Hour {
 			w.step("settle-relist", func() { w.advance(w.period + w.period/6 + w.srv.ListLatency) })
+			if mode != "c04" && r.Chance(1, 2) && !isClosed(root.Done()) {
+				// the server stays quiet (its version does not move), the watch repeats a stale DELETED, and the
+				// next relist — of the very same list version — has to bring the object back
+				w.step("replay-delete", func() { w.inject("replay-delete") })
+				w.step("settle-relist", func() { w.advance(w.period + w.period/6 + w.srv.ListLatency) })
+			}
 		}
 		if r.Chance(1, 2) {
 			tr.line(kv.L("closeroot"))
